@@ -2,8 +2,11 @@
 ENTRY = {'assumptions': ['the matches of each rule on the text and their environments are data taken from the library in-process (find_all per rule): that '
                  "CombinedScan's per-kind dispatch reports exactly these is C01; texts contain no suppression comments (C14); the divergence `sg test` ignores "
                  'suppression comments is observed on the real CLI (info op test_ignores_suppression) and outside the theorem',
-                 "rule sets of one language: `scan --stdin` parses the text in the language of the first rule and applies every rule's kind ids to that tree "
-                 '(mixed-language rule sets are outside the quantifier; the code has a TODO for a soft error)',
+                 'mixed-language rule sets: a rule written for another language than the document\'s is marked `foreign` and comes with what its matcher '
+                 'answers on the document\'s tree (data from the library, like every rule\'s matches); `scan --stdin` parses the text in the language of the '
+                 'first rule; the harness puts a foreign rule (TypeScript / Tsx `debugger`) at the end of every third rule set, never first; `sg test` parses '
+                 'a case in the language of the rule under test, so for a foreign rule the model is given its matches on that parse (`own_ms`) and '
+                 'test_valid_iff_no_finding is stated for rules of the document\'s language',
                  'the three JSON styles print the same records and differ in framing only (C16 JsonFrame); they are one model function and three end-to-end '
                  'comparisons',
                  'LSP histories: handlers run sequentially (the model has no concurrency), which is how the shipped server dispatches since fix 72c38ee; the '
@@ -16,7 +19,10 @@ ENTRY = {'assumptions': ['the matches of each rule on the text and their environ
  'theorems': ['AGV.C09a.frontends_same_findings',
               'AGV.C09a.scan_reports_spec',
               'AGV.C09a.stdin_eq_file',
+              'AGV.C09a.stdin_eq_file_fixed',
+              'AGV.C09a.stdinRules_eq_fileRules',
               'AGV.C09a.stdin_runs_off_rules_example',
+              'AGV.C09a.stdin_runs_foreign_rules_example',
               'AGV.C09a.test_valid_iff_no_finding',
               'AGV.C09a.test_off_rule',
               'AGV.C09a.message_subst',
@@ -39,7 +45,9 @@ ENTRY = {'assumptions': ['the matches of each rule on the text and their environ
                   'ScanStdin::parse_stdin (which rules are registered), match_rule_on_file, RuleConfig::get_message (= fix-template expansion of the message '
                   "over the rule's transform names, C07), cloud_print::print_rule (hint skipped, one-based lines), CaseStatus::verify_valid + rule lookup in "
                   'the RuleCollection, Backend::get_diagnostics, convert_match_to_diagnostic, get_non_empty_message',
-                  'which code base the harness is linked against (pinned / with FIX_C09) is decided by one probe (`scan --stdin` with a single off rule)',
+                  'which code base the harness is linked against (pinned / with FIX_C09) is decided by one probe per switch: `scan --stdin` with a single '
+                  'off rule (Variant.stdinFiltersOff), and `scan --stdin` with a JavaScript rule followed by a TypeScript `pattern: debugger` rule on '
+                  '`try { console.log(1) } finally { f() }` (Variant.stdinFiltersLang: true iff the TypeScript rule reports nothing)',
                   "the harness' parsers of the CLI outputs (three JSON styles, `::level file=..` annotations with multi-line messages, the `PASS/FAIL id  ..N` "
                   'summary lines of sg test after stripping colour codes) and its LSP client',
                   'modelled, not verified: Backend::on_open / on_change / on_close / publish_diagnostics, the document map (DashMap as association list)',
@@ -47,7 +55,9 @@ ENTRY = {'assumptions': ['the matches of each rule on the text and their environ
                   'order); the awaited correspondence builds the Backend the same way and follows every notification by a barrier; get_diagnostics is a '
                   'function of (uri, text) (fixture rule `console.log($A)`: one diagnostic per such line)'],
  'units': ['template_fix', 'frontends_findings', 'lsp_history', 'lsp_unawaited']}
-MANIFEST = {'note': 'H17 confirmed on the pinned code and repaired by FIX_C09 (ScanStdin skips severity-off rules). Shallow model; assurance mostly from the end-to-end '
+MANIFEST = {'note': 'H17 confirmed on the pinned code and repaired by FIX_C09 (ScanStdin skips severity-off rules). A second defect of ScanStdin (rules written for '
+         'another language than the one stdin is parsed as were run on the foreign tree; repaired by b052bde) is the model switch Variant.stdinFiltersLang, '
+         'probed on the real CLI like stdinFiltersOff. Shallow model; assurance mostly from the end-to-end '
          "comparison. Trusted: Lean kernel + 3 standard axioms; harness/driver/check.py glue; tower-lsp's sequential dispatch (concurrency_level(1)) is "
          'assumed by the model and checked end to end by the lsp_unawaited oracle only.',
  'technique': 'Lean 4 proof over shallow front-end models (findings) and an invariant over notification histories (LSP) + end-to-end differential '
@@ -55,7 +65,9 @@ MANIFEST = {'note': 'H17 confirmed on the pinned code and repaired by FIX_C09 (S
  'text': 'FINDINGS HALF — Findings half of C09. Lean theorems over a shallow executable model of which rules each front end registers and how a match becomes '
          'a record: for every rule set and text whose matched nodes lie in the text, `scan` on a file reports exactly the triples (rule id, byte range, '
          'message with variables substituted) of the rules that are not off (scan_reports_spec against the independent Spec.Reported), `scan --stdin` reports '
-         'the same list when no rule is off or with FIX_C09 (stdin_eq_file; H17 is the decide witness stdin_runs_off_rules_example for the pinned code), the '
+         'the same list when no rule is off and no rule is written for another language, or with FIX_C09, unconditionally (stdin_eq_file, '
+         'stdin_eq_file_fixed; H17 is the decide witness stdin_runs_off_rules_example for the pinned code, stdin_runs_foreign_rules_example the one for '
+         'a rule of another language run on the foreign tree), the '
          'language server publishes one diagnostic per finding with the same id and (line, character) range and the documented message decoration, the GitHub '
          'format one annotation per finding above hint with one-based lines (frontends_same_findings); a `valid` case of sg test passes iff scan reports '
          'nothing for that rule (test_valid_iff_no_finding; off rules have no verdict); the message is the template with each $VAR replaced by the captured '
